@@ -3,6 +3,15 @@
 import json, sys, os
 root = os.path.join(os.path.dirname(os.path.abspath(__file__)), "..")
 pid, n = sys.argv[1], sys.argv[2] if len(sys.argv) > 2 else "2"
+start = int(sys.argv[3]) if len(sys.argv) > 3 else 1          # first index (round 2 uses 3)
+import glob
+tried = []
+if start > 1:
+    for d in sorted(glob.glob(os.path.join(root, "seeded", pid + "-*"))):
+        try:
+            tried.append("- " + json.load(open(os.path.join(d, "meta.json")))["summary"][:400].replace("\n", " "))
+        except Exception:
+            pass
 tmpl = open(os.path.join(root, "tools", "seed_prompt.md")).read().split("---\n", 1)[1]
 for l in open(os.path.join(root, "properties.jsonl")):
     p = json.loads(l)
@@ -10,4 +19,6 @@ for l in open(os.path.join(root, "properties.jsonl")):
         print(tmpl.replace("{WT}", "/tmp/seedwt-" + pid).replace("{OUT}", "/tmp/seeds").replace("{ID}", pid)
               .replace("{TITLE}", p["title"]).replace("{STATEMENT}", p["statement"])
               .replace("{QUANTIFIER}", p["quantifier"]["text"]).replace("{FILES}", ", ".join(p["anchors"]["files"]))
-              .replace("{N}", n))
+              .replace("i = 1..{N}", "i = %d..%d" % (start, start + int(n) - 1))
+              .replace("{N}", n)
+              + ("\nOther testers already produced the following changes for this property; yours must be DIFFERENT in kind (another function, another mechanism, another trigger), not variations of these:\n" + "\n".join(tried) + "\n" if tried else ""))
